@@ -62,6 +62,7 @@ var DenialKinds = []string{
 	"wildcard-replay", "wildcard-replay-other-nsec", "wildcard-replay-forged-nsec",
 	"ds-nodata-from-child", // DS question: the parent's answer replaced by the child side of the cut (the child's own SOA and apex NSEC/NSEC3, genuinely signed by the child: no DS bit, because DS lives in the parent)
 	"nx-below-delegation", // referral replaced by NXDOMAIN "proven" with the parent's own NSEC/NSEC3 at the delegation point (RFC 6840 4.1: an ancestor delegation record denies nothing below the cut)
+	"nodata-wildcard-no-next-closer", // a type that exists at a name reported absent with the NSEC3 records of the name's parent and of the parent's wildcard only (RFC 5155 8.7 without the next-closer cover: nothing shows the name itself does not exist)
 	"nx-retired-salt", // NXDOMAIN for a name that exists, "proven" with genuine NSEC3 records of the zone's previous chain (other salt, same length)
 }
 
@@ -680,6 +681,41 @@ func Apply(kind string, a *Answer, attacker, other *Zone) (*dns.Msg, bool) {
 			for _, d := range dedupRR([]dns.RR{z.nsec3Covering(nc), z.nsec3Covering("*." + a.Child)}) {
 				m.Ns = append(m.Ns, withSig(z, d)...)
 			}
+		}
+		changed = true
+	case "nodata-wildcard-no-next-closer":
+		// A wildcard NODATA proof has three parts: closest encloser, a cover of the next-closer
+		// name, and the wildcard's own record without the type. Without the cover nothing says
+		// the asked name does not exist - and here it does, and holds the type.
+		if a.Kind != "answer" || z == nil || !z.Signed || !z.NSEC3 {
+			return nil, false
+		}
+		qn := dns.CanonicalName(m.Question[0].Name)
+		if qn == z.Name || !dns.IsSubDomain(z.Name, qn) {
+			return nil, false
+		}
+		var ceRR, wcRR *dns.NSEC3
+		for n := parentName(qn); dns.IsSubDomain(z.Name, n); n = parentName(n) {
+			if w := z.nsec3Matching("*." + n); w != nil {
+				if c := z.nsec3Matching(n); c != nil {
+					ceRR, wcRR = c, w
+					break
+				}
+			}
+			if n == z.Name {
+				break
+			}
+		}
+		if ceRR == nil {
+			return nil, false
+		}
+		m.Answer, m.Ns = nil, nil
+		m.Rcode = dns.RcodeSuccess
+		soa := dns.Copy(z.soa()[0])
+		m.Ns = append(m.Ns, soa)
+		m.Ns = append(m.Ns, z.sigsFor([]dns.RR{soa})...)
+		for _, d := range dedupRR([]dns.RR{ceRR, wcRR}) {
+			m.Ns = append(m.Ns, withSig(z, d)...)
 		}
 		changed = true
 	case "nx-retired-salt":
